@@ -1057,6 +1057,127 @@ func genCtor(t *tdesc, r *vh.Rng, capOK map[int]bool) ctor {
 	return c
 }
 
+// wide history: "inserted through path X, then the table grows, then looked up".  A good part (~60%) of `width`
+// distinct keys is FIRST inserted through `path` (P:L P:FL P:FF A:L A:FL A:FF AN, or TOF: read from another
+// container's bytes), the rest through Put; the width crosses a growth threshold of the table (75 / 152 / 305 with
+// the default constructor, many thresholds with a small initial capacity).  During the growth and after it, the
+// keys that came in through the path are looked up, added to a second time (no duplicate may appear), removed.
+// Instance 0 is the container under test; instance 1 is the source of the bytes for TOF.
+func genWide(t *tdesc, r *vh.Rng, avail map[string]bool, path string, width int) []op {
+	var ops []op
+	seen := map[string]bool{}
+	mk := func(i int) key {
+		for {
+			var k key
+			if t.kkind == 's' {
+				k = key{s: "w" + strconv.Itoa((i*7919+r.Intn(3))%100003)}
+			} else {
+				k = key{i: int64(i)*int64(r.PickInt([]int{101, -203, 8344921, 1})) - int64(r.Intn(5))}
+				if t.kkind == 'i' {
+					k.i = int64(int32(k.i))
+				}
+			}
+			if tok := t.keyTok(k); !seen[tok] {
+				seen[tok] = true
+				return k
+			}
+			i += 100003
+		}
+	}
+	code, mode := path, ""
+	if j := strings.IndexByte(path, ':'); j >= 0 {
+		code, mode = path[:j], path[j+1:]
+	}
+	var viaPath, viaPut []key
+	look := func(k key) {
+		switch {
+		case avail["G"] && r.Chance(50):
+			ops = append(ops, op{code: "G", k: k})
+		default:
+			ops = append(ops, op{code: "CK", k: k})
+		}
+	}
+	probeSome := func(m int) {
+		for j := 0; j < m && len(viaPath) > 0; j++ {
+			look(viaPath[r.Intn(len(viaPath))])
+		}
+		if len(viaPut) > 0 {
+			look(viaPut[r.Intn(len(viaPut))])
+		}
+	}
+	if code == "TOF" {
+		// the source holds m keys; they enter the container under test through ToObject (which grows the table
+		// itself when m is above a threshold), then the container keeps growing through Put
+		m := width * 6 / 10
+		if r.Chance(50) {
+			m = width - r.Intn(4)
+		}
+		for i := 0; i < m; i++ {
+			k := mk(i)
+			viaPath = append(viaPath, k)
+			ops = append(ops, op{code: "P", mode: "L", t: 1, k: k, v: genVal(t, r)})
+		}
+		if r.Chance(50) { // sometimes into a container that already holds entries
+			for i := 0; i < 1+r.Intn(5); i++ {
+				ops = append(ops, op{code: "P", mode: "L", t: 0, k: viaPath[r.Intn(len(viaPath))], v: genVal(t, r)})
+			}
+		}
+		ops = append(ops, op{code: "TOF", t: 0, src: 1})
+		probeSome(6)
+		for i := m; i < width; i++ {
+			k := mk(i)
+			viaPut = append(viaPut, k)
+			ops = append(ops, op{code: "P", mode: []string{"L", "FL", "FF"}[r.Intn(3)], k: k, v: genVal(t, r)})
+			if i%20 == 0 {
+				probeSome(3)
+			}
+		}
+	} else {
+		for i := 0; i < width; i++ {
+			k := mk(i)
+			if r.Chance(60) {
+				viaPath = append(viaPath, k)
+				ops = append(ops, op{code: code, mode: mode, k: k, v: genVal(t, r)})
+			} else {
+				viaPut = append(viaPut, k)
+				ops = append(ops, op{code: "P", mode: "L", k: k, v: genVal(t, r)})
+			}
+			if i%20 == 19 {
+				probeSome(3)
+			}
+		}
+	}
+	ops = append(ops, op{code: "SZ"})
+	// after the growth: every key that came in through the path is looked up …
+	for _, k := range viaPath {
+		look(k)
+	}
+	// … a part is added to / put a second time (a duplicate would show in the dump and in Size), a part removed, looked up again
+	for _, k := range viaPath {
+		switch x := r.Intn(10); {
+		case x < 3 && avail["A"]:
+			ops = append(ops, op{code: "A", mode: []string{"L", "FL", "FF"}[r.Intn(3)], k: k, v: genVal(t, r)})
+		case x < 3 || x == 3:
+			ops = append(ops, op{code: "P", mode: []string{"L", "FL", "FF"}[r.Intn(3)], k: k, v: genVal(t, r)})
+		case x < 6:
+			ops = append(ops, op{code: "R", k: k})
+			if r.Chance(30) {
+				look(k)
+			}
+		}
+	}
+	ops = append(ops, op{code: "SZ"})
+	for _, k := range viaPut {
+		if r.Chance(30) {
+			look(k)
+		}
+	}
+	if avail["TS"] && r.Chance(30) {
+		ops = append(ops, op{code: "TS"})
+	}
+	return ops
+}
+
 // growth history: many distinct keys, so that the table grows more than five times.
 func genGrowth(t *tdesc, r *vh.Rng, avail map[string]bool, n int) []op {
 	var ops []op
@@ -1355,6 +1476,40 @@ func main() {
 					}
 					jobs = append(jobs, job{[]ctor{c}, genConfig(t, r, availSet, r.PickInt(ps), sm), 8})
 					rep.Count("config-history")
+				}
+			}
+		}
+		{ // wide histories: every insertion path × every growth threshold of the default table, and small random capacities
+			paths := []string{}
+			for _, p := range append(append([]string(nil), avail...), t.xops...) {
+				switch strings.SplitN(p, ":", 2)[0] {
+				case "P", "A", "AN", "TOF":
+					paths = append(paths, p)
+				}
+			}
+			for _, p := range paths {
+				for wi, w := range [][2]int{{78, 100}, {155, 180}, {308, 330}, {20, 330}} {
+					r := rng.Fork()
+					c := ctor{def: true, hmode: byte(r.Intn(3))}
+					if wi == 3 || (env.Thorough && r.Chance(40)) {
+						c = genCtor(t, r, po.capOK)
+					}
+					if t.kkind != 'o' {
+						c.hmode = 0
+					}
+					cs := []ctor{c}
+					if p == "TOF" {
+						cs = append(cs, genCtor(t, r, po.capOK))
+						cs[1].hmode = c.hmode
+					}
+					reps := 1
+					if env.Thorough {
+						reps = 4
+					}
+					for q := 0; q < reps; q++ {
+						jobs = append(jobs, job{cs, genWide(t, r, availSet, p, int(r.Range(int64(w[0]), int64(w[1])))), 16})
+						rep.Count("wide-history:" + p)
+					}
 				}
 			}
 		}
